@@ -1,35 +1,91 @@
 /-
-  C07 lemmas, part 2: soundness of the character-set abstraction, `nullable`, `first`, `cfirst`.
+  C07 lemmas, part 2: soundness of the character-set abstraction (ASCII columns, one exact column
+  per special code point, one approximate column for all other non-ASCII code points),
+  `asciiEnv_ok`, `pyFoldEnv_ok`, `nullable`, `first`, `cfirst`.
 -/
 import SoupVerif.Lemmas.RegexCost.Ends
+set_option autoImplicit false
 namespace SoupVerif
 namespace Rx
 
 /-! ## CSet -/
 
-theorem key_lt (o : Option Nat) : key o < 130 := by
+theorem lookup_mem : ∀ (sp : Specials) (c a : Nat), sp.lookup c = some a → (c, a) ∈ sp
+  | [], _, _, h => by simp [List.lookup] at h
+  | (c', a') :: ps, c, a, h => by
+    simp only [List.lookup] at h
+    split at h
+    · rename_i heq
+      simp only [beq_iff_eq] at heq
+      simp only [Option.some.injEq] at h
+      subst heq; subst h; exact List.mem_cons_self ..
+    · exact List.mem_cons_of_mem _ (lookup_mem ps c a h)
+
+theorem isSpecial_mem {sp : Specials} {c : Nat} (h : isSpecial sp c = true) :
+    ∃ a, sp.lookup c = some a ∧ (c, a) ∈ sp := by
+  unfold isSpecial at h
+  cases hl : sp.lookup c with
+  | none => rw [hl] at h; simp at h
+  | some a => exact ⟨a, rfl, lookup_mem sp c a hl⟩
+
+theorem key_mem_keys (sp : Specials) (o : Option Nat) : key sp o ∈ keys sp := by
+  unfold keys
+  rw [List.mem_append]
   cases o with
-  | none => simp [key]
-  | some c => simp only [key]; split <;> omega
+  | none => left; simp [key]
+  | some c =>
+    simp only [key]
+    split
+    · left; rw [List.mem_range]; omega
+    · split
+      · rename_i hs
+        obtain ⟨a, _, hm⟩ := isSpecial_mem hs
+        right; exact List.mem_map.mpr ⟨(c, a), hm, rfl⟩
+      · left; simp
 
-theorem key_some_le (x : Nat) : key (some x) ≤ 128 := by
-  simp only [key]; split <;> omega
-
-theorem CSet.disjoint_sound {a b : CSet} (h : CSet.disjoint a b = true) (o : Option Nat)
-    (ha : a.mem o = true) (hb : b.mem o = true) : False := by
+theorem CSet.disjoint_sound {sp : Specials} {a b : CSet} (h : CSet.disjoint sp a b = true)
+    (o : Option Nat) (ha : a.mem sp o = true) (hb : b.mem sp o = true) : False := by
   unfold CSet.disjoint at h
   rw [List.all_eq_true] at h
-  have := h (key o) (List.mem_range.mpr (key_lt o))
+  have := h (key sp o) (key_mem_keys sp o)
   simp only [CSet.mem] at ha hb
   simp [ha, hb] at this
 
-theorem CSet.mem_union (a b : CSet) (o : Option Nat) :
-    (CSet.union a b).mem o = (a.mem o || b.mem o) := rfl
-theorem CSet.mem_inter (a b : CSet) (o : Option Nat) :
-    (CSet.inter a b).mem o = (a.mem o && b.mem o) := rfl
-theorem CSet.mem_all (o : Option Nat) : CSet.all.mem o = true := rfl
-theorem CSet.mem_empty (o : Option Nat) : CSet.empty.mem o = false := rfl
-theorem CSet.mem_compl (a : CSet) (o : Option Nat) : (CSet.compl a).mem o = !a.mem o := rfl
+theorem CSet.mem_union (sp : Specials) (a b : CSet) (o : Option Nat) :
+    (CSet.union a b).mem sp o = (a.mem sp o || b.mem sp o) := rfl
+theorem CSet.mem_inter (sp : Specials) (a b : CSet) (o : Option Nat) :
+    (CSet.inter a b).mem sp o = (a.mem sp o && b.mem sp o) := rfl
+theorem CSet.mem_all (sp : Specials) (o : Option Nat) : CSet.all.mem sp o = true := rfl
+theorem CSet.mem_empty (sp : Specials) (o : Option Nat) : CSet.empty.mem sp o = false := rfl
+theorem CSet.mem_compl (sp : Specials) (a : CSet) (o : Option Nat) :
+    (CSet.compl a).mem sp o = !a.mem sp o := rfl
+
+/-! ## Keys: exact (ASCII or special) versus other -/
+
+/-- An exact code point has its own key, from which it is recovered. -/
+theorem key_exact {sp : Specials} {x : Nat} (h : isOther sp x = false) :
+    (key sp (some x) == 128) = false ∧ (key sp (some x) == 129) = false ∧
+      cpOfKey (key sp (some x)) = x := by
+  simp only [key, cpOfKey]
+  by_cases hx : x < 128
+  · simp only [hx, if_true]
+    refine ⟨by simp; omega, by simp; omega, trivial⟩
+  · have hs : isSpecial sp x = true := by
+      simp only [isOther, Bool.and_eq_false_iff, decide_eq_false_iff_not, Bool.not_eq_false'] at h
+      rcases h with h | h
+      · omega
+      · exact h
+    simp only [hx, if_false, hs, if_true]
+    refine ⟨by simp; omega, by simp; omega, ?_⟩
+    rw [if_neg (by omega)]; omega
+
+theorem key_other {sp : Specials} {x : Nat} (h : isOther sp x = true) : key sp (some x) = 128 := by
+  simp only [isOther, Bool.and_eq_true, decide_eq_true_eq, Bool.not_eq_true'] at h
+  simp only [key]
+  rw [if_neg (by omega), h.2]; rfl
+
+theorem isOther_ge {sp : Specials} {x : Nat} (h : isOther sp x = true) : 128 ≤ x := by
+  simp only [isOther, Bool.and_eq_true, decide_eq_true_eq] at h; exact h.1
 
 /-! ## The environment hypothesis -/
 
@@ -39,77 +95,162 @@ theorem lowerCp_lt {c : Nat} (h : c < 128) : lowerCp c < 128 := by
 theorem lowerCp_ge {c : Nat} (h : 128 ≤ c) : lowerCp c = c := by
   unfold lowerCp; split <;> omega
 
-theorem asciiEnv_ok : EnvOK asciiEnv :=
-  ⟨fun _ _ => rfl, fun c h => by show 128 ≤ lowerCp c; rw [lowerCp_ge h]; exact h⟩
+theorem foldEnv_fold (sp : Specials) (c : Nat) :
+    (foldEnv sp).fold c = match sp.lookup c with | some a => a | none => lowerCp c := rfl
 
-theorem EnvOK.fold_eq_iff {env : CharEnv} (ok : EnvOK env) {y c : Nat} (hc : c < 128) :
-    (env.fold y == env.fold c) = (lowerCp y == lowerCp c) := by
-  rw [ok.ascii c hc]
-  by_cases hy : y < 128
-  · rw [ok.ascii y hy]
-  · have h1 := ok.high y (by omega)
-    have h2 := lowerCp_lt hc
-    have h3 := lowerCp_ge (c := y) (by omega)
-    have e1 : (env.fold y == lowerCp c) = false := by simp; omega
-    have e2 : (lowerCp y == lowerCp c) = false := by simp; omega
+/-- `foldEnv sp` is the canonical environment of a well-formed list of specials. -/
+theorem foldEnv_ok {sp : Specials} (wf : ∀ p ∈ sp, 128 ≤ p.1 ∧ p.2 < 128)
+    (nd : ∀ c a, (c, a) ∈ sp → sp.lookup c = some a) : EnvOK sp (foldEnv sp) where
+  wf := wf
+  ascii := by
+    intro c hc
+    rw [foldEnv_fold]
+    cases hl : sp.lookup c with
+    | none => rfl
+    | some a => have := (wf _ (lookup_mem sp c a hl)).1; simp only at this; omega
+  special := by
+    intro p hp
+    rw [foldEnv_fold, nd p.1 p.2 hp]
+  high := by
+    intro c hc hs
+    rw [foldEnv_fold]
+    unfold isSpecial at hs
+    cases hl : sp.lookup c with
+    | none => simp only; rw [lowerCp_ge hc]; exact hc
+    | some a => rw [hl] at hs; simp at hs
+
+theorem asciiEnv_ok : EnvOK [] asciiEnv :=
+  foldEnv_ok (sp := []) (fun _ h => by simp at h) (fun _ _ h => by simp at h)
+
+theorem pyFoldEnv_ok : EnvOK foldSpecials pyFoldEnv :=
+  foldEnv_ok (sp := foldSpecials) (by decide) (by
+    intro c a h
+    simp only [foldSpecials, List.mem_cons, Prod.mk.injEq, List.not_mem_nil, or_false] at h
+    rcases h with ⟨rfl, rfl⟩ | ⟨rfl, rfl⟩ | ⟨rfl, rfl⟩ | ⟨rfl, rfl⟩ <;> rfl)
+
+/-- On an exact code point the environment agrees with `foldEnv sp`, and the fold is ASCII. -/
+theorem EnvOK.fold_exact {sp : Specials} {env : CharEnv} (ok : EnvOK sp env) {x : Nat}
+    (h : isOther sp x = false) : env.fold x = (foldEnv sp).fold x ∧ (foldEnv sp).fold x < 128 := by
+  rw [foldEnv_fold]
+  by_cases hx : x < 128
+  · have hl : sp.lookup x = none := by
+      cases hl : sp.lookup x with
+      | none => rfl
+      | some a => have := (ok.wf _ (lookup_mem sp x a hl)).1; simp only at this; omega
+    rw [hl]
+    exact ⟨ok.ascii x hx, lowerCp_lt hx⟩
+  · have hs : isSpecial sp x = true := by
+      simp only [isOther, Bool.and_eq_false_iff, decide_eq_false_iff_not, Bool.not_eq_false'] at h
+      rcases h with h | h
+      · omega
+      · exact h
+    obtain ⟨a, hl, hm⟩ := isSpecial_mem hs
+    rw [hl]
+    exact ⟨ok.special _ hm, (ok.wf _ hm).2⟩
+
+/-- Another non-ASCII code point never folds into ASCII. -/
+theorem EnvOK.fold_other {sp : Specials} {env : CharEnv} (ok : EnvOK sp env) {x : Nat}
+    (h : isOther sp x = true) : 128 ≤ env.fold x := by
+  simp only [isOther, Bool.and_eq_true, decide_eq_true_eq, Bool.not_eq_true'] at h
+  exact ok.high x h.1 h.2
+
+theorem foldEnv_fold_other {sp : Specials} {x : Nat} (h : isOther sp x = true) :
+    (foldEnv sp).fold x = x := by
+  simp only [isOther, Bool.and_eq_true, decide_eq_true_eq, Bool.not_eq_true'] at h
+  rw [foldEnv_fold]
+  have := h.2
+  unfold isSpecial at this
+  cases hl : sp.lookup x with
+  | none => exact lowerCp_ge h.1
+  | some a => rw [hl] at this; simp at this
+
+theorem EnvOK.fold_eq_iff {sp : Specials} {env : CharEnv} (ok : EnvOK sp env) {y c : Nat}
+    (hc : isOther sp c = false) :
+    (env.fold y == env.fold c) = ((foldEnv sp).fold y == (foldEnv sp).fold c) := by
+  obtain ⟨e1, l1⟩ := ok.fold_exact hc
+  rw [e1]
+  cases hy : isOther sp y with
+  | false => rw [(ok.fold_exact hy).1]
+  | true =>
+    have h1 := ok.fold_other hy
+    have h2 := foldEnv_fold_other hy
+    have h3 := isOther_ge hy
+    have e1 : (env.fold y == (foldEnv sp).fold c) = false := by simp; omega
+    have e2 : ((foldEnv sp).fold y == (foldEnv sp).fold c) = false := by simp; omega
     rw [e1, e2]
 
-theorem itemHas_ascii {env : CharEnv} (ok : EnvOK env) (ic : Bool) {c : Nat} (hc : c < 128)
-    (it : SetItem) (hcat : ∀ k, it ≠ .cat k) : itemHas env ic c it = itemHas asciiEnv ic c it := by
+theorem EnvOK.fold_eq_iff' {sp : Specials} {env : CharEnv} (ok : EnvOK sp env) {x c : Nat}
+    (hx : isOther sp x = false) :
+    (env.fold x == env.fold c) = ((foldEnv sp).fold x == (foldEnv sp).fold c) := by
+  rw [Bool.beq_comm, ok.fold_eq_iff hx, Bool.beq_comm]
+
+theorem itemHas_exact {sp : Specials} {env : CharEnv} (ok : EnvOK sp env) (ic : Bool) {c : Nat}
+    (hc : isOther sp c = false) (it : SetItem) (hcat : ∀ k, it ≠ .cat k) :
+    itemHas env ic c it = itemHas (foldEnv sp) ic c it := by
   cases it with
   | ch y =>
     simp only [itemHas]
-    show (if ic = true then env.fold y == env.fold c else y == c) =
-      (if ic = true then lowerCp y == lowerCp c else y == c)
     rw [ok.fold_eq_iff hc]
   | range lo hi =>
     simp only [itemHas]
-    show _ = ((decide (lo ≤ c) && decide (c ≤ hi)) || (ic && ((decide (lo ≤ lowerCp c) && decide (lowerCp c ≤ hi)) || _)))
-    rw [ok.ascii c hc]
+    rw [(ok.fold_exact hc).1]
   | cat k => exact absurd rfl (hcat k)
 
-theorem itemHas_high {env : CharEnv} (ok : EnvOK env) (ic : Bool) {c : Nat} (hc : 128 ≤ c)
-    (it : SetItem) (h : itemHas env ic c it = true) : itemHigh it = true := by
+theorem itemHas_high {sp : Specials} {env : CharEnv} (ok : EnvOK sp env) (ic : Bool) {c : Nat}
+    (hc : isOther sp c = true) (it : SetItem) (h : itemHas env ic c it = true) :
+    itemHigh sp it = true := by
+  have hge := isOther_ge hc
+  have hf := ok.fold_other hc
   cases it with
   | ch y =>
     simp only [itemHas] at h
-    simp only [itemHigh, decide_eq_true_eq]
+    simp only [itemHigh]
     cases ic
-    · simp at h; omega
+    · simp at h; subst h; exact hc
     · simp only [if_true, beq_iff_eq] at h
-      by_cases hy : y < 128
-      · have := ok.ascii y hy; have := lowerCp_lt hy; have := ok.high c hc; omega
-      · omega
+      cases hy : isOther sp y with
+      | true => rfl
+      | false =>
+        obtain ⟨e1, l1⟩ := ok.fold_exact hy
+        omega
   | range lo hi =>
     simp only [itemHas, Bool.or_eq_true, Bool.and_eq_true, decide_eq_true_eq] at h
     simp only [itemHigh, decide_eq_true_eq]
-    have := ok.high c hc
     omega
   | cat k => rfl
 
-theorem itemApx_upper {env : CharEnv} (ok : EnvOK env) (ic : Bool) (x : Nat) (it : SetItem)
-    (h : itemHas env ic x it = true) : itemApx true ic (key (some x)) it = true := by
-  unfold itemApx key
-  by_cases hx : x < 128
-  · simp only [hx, if_true]
+theorem itemApx_upper {sp : Specials} {env : CharEnv} (ok : EnvOK sp env) (ic : Bool) (x : Nat)
+    (it : SetItem) (h : itemHas env ic x it = true) :
+    itemApx sp true ic (key sp (some x)) it = true := by
+  unfold itemApx
+  cases hx : isOther sp x with
+  | false =>
+    obtain ⟨k1, k2, k3⟩ := key_exact hx
+    simp only [k1, k2, Bool.false_eq_true, if_false, k3]
     cases it with
     | cat k => rfl
-    | ch y => simp only []; rw [← itemHas_ascii ok ic hx _ (by intro k; simp)]; exact h
-    | range lo hi => simp only []; rw [← itemHas_ascii ok ic hx _ (by intro k; simp)]; exact h
-  · simp only [hx, if_false]
-    have := itemHas_high ok ic (by omega : 128 ≤ x) it h
+    | ch y => simp only []; rw [← itemHas_exact ok ic hx _ (by intro k; simp)]; exact h
+    | range lo hi => simp only []; rw [← itemHas_exact ok ic hx _ (by intro k; simp)]; exact h
+  | true =>
+    rw [key_other hx]
+    have := itemHas_high ok ic hx it h
     simp [this]
 
-theorem itemApx_lower {env : CharEnv} (ok : EnvOK env) (ic : Bool) (x : Nat) (it : SetItem)
-    (h : itemApx false ic (key (some x)) it = true) : itemHas env ic x it = true := by
-  unfold itemApx key at h
-  by_cases hx : x < 128
-  · simp only [hx, if_true] at h
+theorem itemApx_lower {sp : Specials} {env : CharEnv} (ok : EnvOK sp env) (ic : Bool) (x : Nat)
+    (it : SetItem) (h : itemApx sp false ic (key sp (some x)) it = true) :
+    itemHas env ic x it = true := by
+  unfold itemApx at h
+  cases hx : isOther sp x with
+  | false =>
+    obtain ⟨k1, k2, k3⟩ := key_exact hx
+    simp only [k1, k2, Bool.false_eq_true, if_false, k3] at h
     cases it with
     | cat k => simp at h
-    | ch y => simp only [] at h; rw [itemHas_ascii ok ic hx _ (by intro k; simp)]; exact h
-    | range lo hi => simp only [] at h; rw [itemHas_ascii ok ic hx _ (by intro k; simp)]; exact h
-  · simp [hx] at h
+    | ch y => simp only [] at h; rw [itemHas_exact ok ic hx _ (by intro k; simp)]; exact h
+    | range lo hi => simp only [] at h; rw [itemHas_exact ok ic hx _ (by intro k; simp)]; exact h
+  | true =>
+    rw [key_other hx] at h
+    simp at h
 
 theorem any_mono {α : Type} (l : List α) (f g : α → Bool) (h : ∀ x, f x = true → g x = true)
     (hf : l.any f = true) : l.any g = true := by
@@ -117,100 +258,127 @@ theorem any_mono {α : Type} (l : List α) (f g : α → Bool) (h : ∀ x, f x =
   obtain ⟨x, hx, hfx⟩ := hf
   exact ⟨x, hx, h x hfx⟩
 
-theorem EnvOK.fold_eq_iff' {env : CharEnv} (ok : EnvOK env) {x c : Nat} (hx : x < 128) :
-    (env.fold x == env.fold c) = (lowerCp x == lowerCp c) := by
-  rw [Bool.beq_comm, ok.fold_eq_iff hx, Bool.beq_comm]
-
-theorem litOk_ascii {env : CharEnv} (ok : EnvOK env) (ic : Bool) {x : Nat} (c : Nat) (hx : x < 128) :
+theorem litOk_exact {sp : Specials} {env : CharEnv} (ok : EnvOK sp env) (ic : Bool) {x : Nat}
+    (c : Nat) (hx : isOther sp x = false) :
     (if ic = true then env.fold x == env.fold c else x == c) =
-      (if ic = true then lowerCp x == lowerCp c else x == c) := by
+      (if ic = true then (foldEnv sp).fold x == (foldEnv sp).fold c else x == c) := by
   cases ic
   · rfl
   · simp only [if_true]; exact ok.fold_eq_iff' hx
 
-theorem litOk_high {env : CharEnv} (ok : EnvOK env) (ic : Bool) {x c : Nat} (hx : 128 ≤ x)
-    (h : (if ic = true then env.fold x == env.fold c else x == c) = true) : 128 ≤ c := by
+theorem litOk_high {sp : Specials} {env : CharEnv} (ok : EnvOK sp env) (ic : Bool) {x c : Nat}
+    (hx : isOther sp x = true)
+    (h : (if ic = true then env.fold x == env.fold c else x == c) = true) : isOther sp c = true := by
   cases ic
-  · simp at h; omega
+  · simp at h; subst h; exact hx
   · simp only [if_true, beq_iff_eq] at h
-    by_cases hc : c < 128
-    · have := ok.ascii c hc; have := lowerCp_lt hc; have := ok.high x hx; omega
-    · omega
+    cases hc : isOther sp c with
+    | true => rfl
+    | false =>
+      obtain ⟨e1, l1⟩ := ok.fold_exact hc
+      have := ok.fold_other hx
+      omega
 
-theorem leafApx_upper {env : CharEnv} (ok : EnvOK env) (r : Rx) (x : Nat)
-    (h : charOk env r x = true) : leafApx true r (key (some x)) = true := by
+theorem leafApx_upper {sp : Specials} {env : CharEnv} (ok : EnvOK sp env) (r : Rx) (x : Nat)
+    (h : charOk env r x = true) : leafApx sp true r (key sp (some x)) = true := by
   cases r <;> simp only [charOk, Bool.false_eq_true] at h
   · -- lit
     rename_i c ic
-    simp only [leafApx, key]
-    by_cases hx : x < 128
-    · simp only [hx, if_true]
-      rw [← litOk_ascii ok ic c hx]; exact h
-    · have := litOk_high ok ic (by omega) h
-      simp [hx, this]
+    simp only [leafApx]
+    cases hx : isOther sp x with
+    | false =>
+      obtain ⟨k1, k2, k3⟩ := key_exact hx
+      simp only [k1, k2, Bool.false_eq_true, if_false, k3]
+      rw [← litOk_exact ok ic c hx]; exact h
+    | true =>
+      rw [key_other hx]
+      have := litOk_high ok ic hx h
+      simp [this]
   · -- notLit
     rename_i c ic
-    simp only [leafApx, key]
-    by_cases hx : x < 128
-    · simp only [hx, if_true]
-      rw [← litOk_ascii ok ic c hx]; exact h
-    · simp [hx]
+    simp only [leafApx]
+    cases hx : isOther sp x with
+    | false =>
+      obtain ⟨k1, k2, k3⟩ := key_exact hx
+      simp only [k1, k2, Bool.false_eq_true, if_false, k3]
+      rw [← litOk_exact ok ic c hx]; exact h
+    | true =>
+      rw [key_other hx]; simp
   · -- any
     rename_i d
-    simp only [leafApx, key]
-    by_cases hx : x < 128
-    · simp only [hx, if_true]; exact h
-    · simp [hx]
+    simp only [leafApx]
+    cases hx : isOther sp x with
+    | false =>
+      obtain ⟨k1, k2, k3⟩ := key_exact hx
+      simp only [k1, k2, Bool.false_eq_true, if_false, k3]; exact h
+    | true =>
+      rw [key_other hx]; simp
   · -- set
     rename_i neg items ic
     simp only [leafApx]
-    have hk := key_some_le x
-    rw [if_pos (by omega)]
+    have hk : (key sp (some x) == 129) = false := by
+      cases hx : isOther sp x with
+      | false => exact (key_exact hx).2.1
+      | true => rw [key_other hx]; rfl
+    rw [hk]
+    simp only [Bool.false_eq_true, if_false]
     unfold setHas at h
     cases neg
     · simp only [Bool.bne_false] at h ⊢
       exact any_mono _ _ _ (fun it => itemApx_upper ok ic x it) h
     · simp only [bne_self_eq_false, Bool.bne_true, Bool.not_eq_true'] at h ⊢
-      cases hany : items.any (itemApx false ic (key (some x))) with
+      cases hany : items.any (itemApx sp false ic (key sp (some x))) with
       | false => rfl
       | true =>
         have := any_mono _ _ _ (fun it => itemApx_lower ok ic x it) hany
         rw [h] at this; exact absurd this (by simp)
 
-theorem leafApx_lower {env : CharEnv} (ok : EnvOK env) (r : Rx) (x : Nat)
-    (h : leafApx false r (key (some x)) = true) : charOk env r x = true := by
+theorem leafApx_lower {sp : Specials} {env : CharEnv} (ok : EnvOK sp env) (r : Rx) (x : Nat)
+    (h : leafApx sp false r (key sp (some x)) = true) : charOk env r x = true := by
   cases r <;> simp only [leafApx, Bool.false_eq_true] at h
   · -- lit
     rename_i c ic
     simp only [charOk]
-    simp only [key] at h
-    by_cases hx : x < 128
-    · simp only [hx, if_true] at h
-      rw [litOk_ascii ok ic c hx]; exact h
-    · simp [hx] at h
+    cases hx : isOther sp x with
+    | false =>
+      obtain ⟨k1, k2, k3⟩ := key_exact hx
+      simp only [k1, k2, Bool.false_eq_true, if_false, k3] at h
+      rw [litOk_exact ok ic c hx]; exact h
+    | true =>
+      rw [key_other hx] at h; simp at h
   · -- notLit
     rename_i c ic
     simp only [charOk]
-    simp only [key] at h
-    by_cases hx : x < 128
-    · simp only [hx, if_true] at h
-      rw [litOk_ascii ok ic c hx]; exact h
-    · have hc : c < 128 := by simpa [hx] using h
+    cases hx : isOther sp x with
+    | false =>
+      obtain ⟨k1, k2, k3⟩ := key_exact hx
+      simp only [k1, k2, Bool.false_eq_true, if_false, k3] at h
+      rw [litOk_exact ok ic c hx]; exact h
+    | true =>
+      rw [key_other hx] at h
+      have hc : isOther sp c = false := by simpa using h
       cases hb : (if ic = true then env.fold x == env.fold c else x == c) with
       | false => rfl
-      | true => have := litOk_high ok ic (by omega) hb; omega
+      | true => have := litOk_high ok ic hx hb; rw [hc] at this; exact absurd this (by simp)
   · -- any
     rename_i d
     simp only [charOk]
-    simp only [key] at h
-    by_cases hx : x < 128
-    · simp only [hx, if_true] at h; exact h
-    · simp only [Bool.or_eq_true, bne_iff_ne]; right; omega
+    cases hx : isOther sp x with
+    | false =>
+      obtain ⟨k1, k2, k3⟩ := key_exact hx
+      simp only [k1, k2, Bool.false_eq_true, if_false, k3] at h; exact h
+    | true =>
+      have := isOther_ge hx
+      simp only [Bool.or_eq_true, bne_iff_ne]; right; omega
   · -- set
     rename_i neg items ic
     simp only [charOk]
-    have hk := key_some_le x
-    rw [if_pos (by omega)] at h
+    have hk : (key sp (some x) == 129) = false := by
+      cases hx : isOther sp x with
+      | false => exact (key_exact hx).2.1
+      | true => rw [key_other hx]; rfl
+    rw [hk] at h
+    simp only [Bool.false_eq_true, if_false] at h
     unfold setHas
     cases neg
     · simp only [Bool.bne_false] at h ⊢
@@ -222,10 +390,10 @@ theorem leafApx_lower {env : CharEnv} (ok : EnvOK env) (r : Rx) (x : Nat)
         have := any_mono _ _ _ (fun it => itemApx_upper ok ic x it) hany
         rw [h] at this; exact absurd this (by simp)
 
-theorem leafApx_eof (u : Bool) (r : Rx) : leafApx u r 129 = false := by
+theorem leafApx_eof (sp : Specials) (u : Bool) (r : Rx) : leafApx sp u r 129 = false := by
   cases r <;> simp [leafApx]
 
-/-! ## The repeat loop: positivity, first symbols -/
+/-! ## The repeat loop: positivity, first sp symbols -/
 
 theorem iterE_pos (body : Nat → List Nat) (hb : ∀ q e, e ∈ body q → q < e) (mn : Nat)
     (mx : Option Nat) (g : Bool) :
@@ -273,8 +441,8 @@ theorem iterE_first (body : Nat → List Nat) (mn : Nat) (hmn : 0 < mn)
 
 /-! ## Soundness of `nullable`, `first`, `cfirst` -/
 
-theorem first_leaf {env : CharEnv} (ok : EnvOK env) {s : Str} {r : Rx} (hl : isLeaf r = true)
-    {i e : Nat} (h : e ∈ ends env s r i) : (leafApx true r).mem s[i]? = true := by
+theorem first_leaf {sp : Specials} {env : CharEnv} (ok : EnvOK sp env) {s : Str} {r : Rx} (hl : isLeaf r = true)
+    {i e : Nat} (h : e ∈ ends env s r i) : (leafApx sp true r).mem sp s[i]? = true := by
   obtain ⟨_, x, hx, hc⟩ := (mem_ends_leaf hl).mp h
   rw [hx]; exact leafApx_upper ok r x hc
 
@@ -325,8 +493,8 @@ theorem nullableAlt_sound (env : CharEnv) (s : Str) :
 end
 
 mutual
-theorem first_sound (env : CharEnv) (ok : EnvOK env) (s : Str) :
-    ∀ (r : Rx) (i e : Nat), e ∈ ends env s r i → (first r).mem s[i]? = true
+theorem first_sound {sp : Specials} (env : CharEnv) (ok : EnvOK sp env) (s : Str) :
+    ∀ (r : Rx) (i e : Nat), e ∈ ends env s r i → (first sp r).mem sp s[i]? = true
   | .lit c ic, i, e, h => by simp only [first]; exact first_leaf ok rfl h
   | .notLit c ic, i, e, h => by simp only [first]; exact first_leaf ok rfl h
   | .any d, i, e, h => by simp only [first]; exact first_leaf ok rfl h
@@ -371,7 +539,7 @@ theorem first_sound (env : CharEnv) (ok : EnvOK env) (s : Str) :
       cases hx : s[i]? with
       | none => simp only [CSet.mem, key]; rw [leafApx_eof]; rfl
       | some x =>
-        cases hm : (leafApx false r).mem (some x) with
+        cases hm : (leafApx sp false r).mem sp (some x) with
         | false => rfl
         | true =>
           have hc := leafApx_lower ok r x hm
@@ -390,8 +558,8 @@ theorem first_sound (env : CharEnv) (ok : EnvOK env) (s : Str) :
     | cons e' _ =>
       exact first_sound env ok s r i e' (by rw [hh]; exact List.mem_cons_self ..)
   | .look false _ _, _, _, _ => rfl
-theorem firstSeq_sound (env : CharEnv) (ok : EnvOK env) (s : Str) :
-    ∀ (rs : List Rx) (i e : Nat), e ∈ endsSeq env s rs i → (firstSeq rs).mem s[i]? = true
+theorem firstSeq_sound {sp : Specials} (env : CharEnv) (ok : EnvOK sp env) (s : Str) :
+    ∀ (rs : List Rx) (i e : Nat), e ∈ endsSeq env s rs i → (firstSeq sp rs).mem sp s[i]? = true
   | [], _, _, _ => rfl
   | r :: rs, i, e, h => by
     simp only [endsSeq, List.mem_flatMap] at h
@@ -407,8 +575,8 @@ theorem firstSeq_sound (env : CharEnv) (ok : EnvOK env) (s : Str) :
         subst this
         exact Or.inr (firstSeq_sound env ok s rs j e he)
     · exact h1
-theorem firstAlt_sound (env : CharEnv) (ok : EnvOK env) (s : Str) :
-    ∀ (rs : List Rx) (i e : Nat), e ∈ endsAlt env s rs i → (firstAlt rs).mem s[i]? = true
+theorem firstAlt_sound {sp : Specials} (env : CharEnv) (ok : EnvOK sp env) (s : Str) :
+    ∀ (rs : List Rx) (i e : Nat), e ∈ endsAlt env s rs i → (firstAlt sp rs).mem sp s[i]? = true
   | [], _, _, h => by simp [endsAlt] at h
   | r :: rs, i, e, h => by
     simp only [endsAlt, List.mem_append] at h
@@ -416,8 +584,8 @@ theorem firstAlt_sound (env : CharEnv) (ok : EnvOK env) (s : Str) :
     rcases h with h | h
     · exact Or.inl (first_sound env ok s r i e h)
     · exact Or.inr (firstAlt_sound env ok s rs i e h)
-theorem cfirst_sound (env : CharEnv) (ok : EnvOK env) (s : Str) :
-    ∀ (r : Rx) (i e : Nat), e ∈ ends env s r i → i < e → (cfirst r).mem s[i]? = true
+theorem cfirst_sound {sp : Specials} (env : CharEnv) (ok : EnvOK sp env) (s : Str) :
+    ∀ (r : Rx) (i e : Nat), e ∈ ends env s r i → i < e → (cfirst sp r).mem sp s[i]? = true
   | .lit c ic, i, e, h, _ => by simp only [cfirst]; exact first_leaf ok rfl h
   | .notLit c ic, i, e, h, _ => by simp only [cfirst]; exact first_leaf ok rfl h
   | .any d, i, e, h, _ => by simp only [cfirst]; exact first_leaf ok rfl h
@@ -436,8 +604,8 @@ theorem cfirst_sound (env : CharEnv) (ok : EnvOK env) (s : Str) :
   | .eol, i, e, h, hlt => by have := mem_ends_zw (r := .eol) rfl h; omega
   | .eos, i, e, h, hlt => by have := mem_ends_zw (r := .eos) rfl h; omega
   | .look a n r, i, e, h, hlt => by have := mem_ends_zw (r := .look a n r) rfl h; omega
-theorem cfirstSeq_sound (env : CharEnv) (ok : EnvOK env) (s : Str) :
-    ∀ (rs : List Rx) (i e : Nat), e ∈ endsSeq env s rs i → i < e → (cfirstSeq rs).mem s[i]? = true
+theorem cfirstSeq_sound {sp : Specials} (env : CharEnv) (ok : EnvOK sp env) (s : Str) :
+    ∀ (rs : List Rx) (i e : Nat), e ∈ endsSeq env s rs i → i < e → (cfirstSeq sp rs).mem sp s[i]? = true
   | [], i, e, h, hlt => by simp [endsSeq] at h; omega
   | r :: rs, i, e, h, hlt => by
     simp only [endsSeq, List.mem_flatMap] at h
@@ -454,8 +622,8 @@ theorem cfirstSeq_sound (env : CharEnv) (ok : EnvOK env) (s : Str) :
       | true =>
         simp only [if_true, CSet.mem_inter, Bool.and_eq_true]
         exact ⟨first_sound env ok s r j j hj, cfirstSeq_sound env ok s rs j e he hlt⟩
-theorem cfirstAlt_sound (env : CharEnv) (ok : EnvOK env) (s : Str) :
-    ∀ (rs : List Rx) (i e : Nat), e ∈ endsAlt env s rs i → i < e → (cfirstAlt rs).mem s[i]? = true
+theorem cfirstAlt_sound {sp : Specials} (env : CharEnv) (ok : EnvOK sp env) (s : Str) :
+    ∀ (rs : List Rx) (i e : Nat), e ∈ endsAlt env s rs i → i < e → (cfirstAlt sp rs).mem sp s[i]? = true
   | [], _, _, h, _ => by simp [endsAlt] at h
   | r :: rs, i, e, h, hlt => by
     simp only [endsAlt, List.mem_append] at h
